@@ -13,6 +13,7 @@ import (
 	"go/ast"
 	"go/token"
 	"math/big"
+	"regexp"
 	"strings"
 
 	"ssvharness/internal/gen"
@@ -29,6 +30,7 @@ func main() {
 		}
 		l.Raw("/-- comparison operator of an improvement test -/\ninductive CmpOp where\n  | lt | le | gt | ge\n  deriving DecidableEq, Repr\n")
 		l.Raw("/-- a value the code uses as initial best / failure record -/\ninductive Val where\n  | zero | timeout\n  deriving DecidableEq, Repr\n")
+		l.Raw("/-- the instant a per-probe deadline / latency measurement is counted from -/\ninductive Base where\n  | jobStart | roundStart\n  deriving DecidableEq, Repr\n")
 		if err := roundRobin(p, l); err != nil {
 			return err
 		}
@@ -52,6 +54,9 @@ func main() {
 			if err := bestLoop(p, l, lp); err != nil {
 				return err
 			}
+		}
+		if err := concurrency(p, l); err != nil {
+			return err
 		}
 		return atomicSelector(p, l)
 	})
@@ -216,14 +221,22 @@ func availJob(p *gen.Pkg, l *gen.Lean) error {
 	if err != nil {
 		return err
 	}
-	pre := []string{"defer j.wg.Done()", "ctx, cancel := context.WithTimeout(ctx, j.timeout)", "defer cancel()", "mask := uint(1) << (j.count % bits.UintSize)"}
+	pre := []string{"defer j.wg.Done()", "", "defer cancel()", "mask := uint(1) << (j.count % bits.UintSize)"}
 	if len(fd.Body.List) != len(pre)+1 {
 		return fmt.Errorf("availabilityProbeJob.Run: expected %d statements, found %d", len(pre)+1, len(fd.Body.List))
 	}
 	for i, w := range pre {
+		if w == "" {
+			continue
+		}
 		if err := want(p, "availabilityProbeJob.Run statement", fd.Body.List[i], w); err != nil {
 			return err
 		}
+	}
+	// the probe's deadline: counted from the start of THIS job (context.WithTimeout inside Run), or handed in by the dispatcher
+	availBase, err := deadlineBase(p, "availabilityProbeJob.Run", fd.Body.List[1], false)
+	if err != nil {
+		return err
 	}
 	// ring size = bits.UintSize as the type checker evaluates it
 	as := fd.Body.List[3].(*ast.AssignStmt)
@@ -249,6 +262,9 @@ func availJob(p *gen.Pkg, l *gen.Lean) error {
 	}
 	l.Comment("availabilityProbeJob.Run: mask := uint(1) << (j.count %% bits.UintSize); success sets the bit, failure clears it")
 	l.NatDef("availRingBits", bitsN, "clientgroups: bits.UintSize (ring of success bits per client)")
+	l.Raw(fmt.Sprintf("/-- availabilityProbeJob.Run: `%s` -/\ndef availDeadlineBase : Base := %s\n", p.Src(fd.Body.List[1]), availBase))
+	l.Raw("/-- step program of availabilityProbeJob.Run (runs on a worker, once the job has been received) -/\ndef availRunProgram : List String := " +
+		gen.LeanStrList([]string{"defer wg.Done", "deadline := " + strings.TrimPrefix(availBase, ".") + " + timeout", "probe(ctx, client)", "record bit count % availRingBits"}) + "\n")
 	return nil
 }
 
@@ -257,14 +273,21 @@ func latencyJob(p *gen.Pkg, l *gen.Lean) error {
 	if err != nil {
 		return err
 	}
-	pre := []string{"defer j.wg.Done()", "start := time.Now()", "ctx, cancel := context.WithDeadline(ctx, start.Add(j.timeout))", "defer cancel()"}
+	pre := []string{"defer j.wg.Done()", "start := time.Now()", "", "defer cancel()"}
 	if len(fd.Body.List) != len(pre)+1 {
 		return fmt.Errorf("latencyProbeJob.Run: expected %d statements, found %d", len(pre)+1, len(fd.Body.List))
 	}
 	for i, w := range pre {
+		if w == "" {
+			continue
+		}
 		if err := want(p, "latencyProbeJob.Run statement", fd.Body.List[i], w); err != nil {
 			return err
 		}
+	}
+	latBase, err := deadlineBase(p, "latencyProbeJob.Run", fd.Body.List[2], true)
+	if err != nil {
+		return err
 	}
 	t, e, err := errIf(p, fd)
 	if err != nil {
@@ -298,7 +321,112 @@ func latencyJob(p *gen.Pkg, l *gen.Lean) error {
 	}
 	// the result type: [latencyProbeResultSize]time.Duration
 	l.Comment("latencyProbeJob.Run: slot j.count %% latencyProbeResultSize := time.Since(start) on success")
+	l.Raw(fmt.Sprintf("/-- latencyProbeJob.Run: `%s` -/\ndef latDeadlineBase : Base := %s\n", p.Src(fd.Body.List[2]), latBase))
+	l.Raw("/-- latencyProbeJob.Run: `start := time.Now()` is taken inside Run (on the worker), and a success records time.Since(start) -/\ndef latencyClockBase : Base := .jobStart\n")
+	l.Raw("/-- step program of latencyProbeJob.Run -/\ndef latRunProgram : List String := " +
+		gen.LeanStrList([]string{"defer wg.Done", "start := now", "deadline := " + strings.TrimPrefix(latBase, ".") + " + timeout", "probe(ctx, client)", "record slot count % latencyProbeResultSize"}) + "\n")
 	l.Raw(fmt.Sprintf("/-- clientgroups: value a failed latency probe records in its slot (`%s`) -/\ndef latFailureRecord : Val := %s\n", fv, valName(fv)))
+	return nil
+}
+
+// deadlineBase classifies the statement that derives the probe's context inside Run.
+func deadlineBase(p *gen.Pkg, where string, st ast.Stmt, hasStart bool) (string, error) {
+	src := p.Src(st)
+	switch {
+	case src == "ctx, cancel := context.WithTimeout(ctx, j.timeout)":
+		return ".jobStart", nil // relative to the call, i.e. to the start of this job
+	case hasStart && src == "ctx, cancel := context.WithDeadline(ctx, start.Add(j.timeout))":
+		return ".jobStart", nil // start := time.Now() is the statement before
+	}
+	if m := regexp.MustCompile(`^ctx, cancel := context\.WithDeadline\(ctx, j\.(\w+)\)$`).FindStringSubmatch(src); m != nil {
+		return ".roundStart", nil // an instant computed by the dispatcher, common to the jobs of the round
+	}
+	return "", fmt.Errorf("%s: unrecognised derivation of the probe context: %s", where, src)
+}
+
+// workerPool checks the prologue of a probe loop: an unbuffered job channel, `pc.concurrency` workers that each
+// run one job at a time, the ticker.
+func workerPool(p *gen.Pkg, fn string, fd *ast.FuncDecl, jobType string) error {
+	want5 := []string{
+		"jobCh := make(chan " + jobType + "[C])",
+		"defer close(jobCh)",
+		"for range pc.concurrency { go func() { for job := range jobCh { job.Run(ctx) } }() }",
+		"done := ctx.Done()",
+		"ticker := time.NewTicker(pc.interval)",
+		"defer ticker.Stop()",
+	}
+	if len(fd.Body.List) != len(want5)+2 {
+		return fmt.Errorf("%s: expected %d top-level statements, found %d", fn, len(want5)+2, len(fd.Body.List))
+	}
+	for i, w := range want5 {
+		if err := want(p, fn+" prologue", fd.Body.List[i], w); err != nil {
+			return err
+		}
+	}
+	loop, ok := fd.Body.List[len(want5)+1].(*ast.ForStmt)
+	if !ok || loop.Cond != nil || loop.Init != nil || len(loop.Body.List) != 1 {
+		return fmt.Errorf("%s: the last statement is not `for { select {...} }`", fn)
+	}
+	sel, ok := loop.Body.List[0].(*ast.SelectStmt)
+	if !ok || len(sel.Body.List) != 2 {
+		return fmt.Errorf("%s: the loop body is not a two-way select", fn)
+	}
+	c0 := sel.Body.List[0].(*ast.CommClause)
+	if c0.Comm == nil || p.Src(c0.Comm) != "<-done" || len(c0.Body) != 1 || p.Src(c0.Body[0]) != "return" {
+		return fmt.Errorf("%s: first select case is not `case <-done: return`", fn)
+	}
+	return nil
+}
+
+func concurrency(p *gen.Pkg, l *gen.Lean) error {
+	fd, err := p.Func("*ConnectivityProbeConfig", "applyDefaults")
+	if err != nil {
+		return err
+	}
+	wantS := []string{
+		"if c.Timeout <= 0 { c.Timeout = jsoncfg.Duration(defaultProbeTimeout) }",
+		"if c.Interval <= 0 { c.Interval = jsoncfg.Duration(defaultProbeInterval) }",
+		"if c.Concurrency <= 0 { c.Concurrency = defaultProbeConcurrency }",
+	}
+	if len(fd.Body.List) != len(wantS) {
+		return fmt.Errorf("ConnectivityProbeConfig.applyDefaults: expected %d statements", len(wantS))
+	}
+	for i, w := range wantS {
+		if err := want(p, "ConnectivityProbeConfig.applyDefaults", fd.Body.List[i], w); err != nil {
+			return err
+		}
+	}
+	for _, recv := range []string{"*TCPConnectivityProbeConfig", "*UDPConnectivityProbeConfig"} {
+		f, err := p.Func(recv, "newProbeConfig")
+		if err != nil {
+			return err
+		}
+		if len(f.Body.List) == 0 || p.Src(f.Body.List[0]) != "c.applyDefaults()" {
+			return fmt.Errorf("%s.newProbeConfig does not start with c.applyDefaults()", recv)
+		}
+		found := map[string]string{}
+		ast.Inspect(f.Body, func(n ast.Node) bool {
+			if kv, ok := n.(*ast.KeyValueExpr); ok {
+				found[p.Src(kv.Key)] = p.Src(kv.Value)
+			}
+			return true
+		})
+		for k, v := range map[string]string{"concurrency": "min(c.Concurrency, len(clients))", "timeout": "c.Timeout.Value()", "interval": "c.Interval.Value()", "clients": "clients"} {
+			if found[k] != v {
+				return fmt.Errorf("%s.newProbeConfig: %s is `%s`, expected `%s`", recv, k, found[k], v)
+			}
+		}
+		af, err := p.Func(recv, "applyDefaults")
+		if err != nil {
+			return err
+		}
+		if len(af.Body.List) == 0 || p.Src(af.Body.List[0]) != "c.ConnectivityProbeConfig.applyDefaults()" {
+			return fmt.Errorf("%s.applyDefaults does not start with the shared defaults", recv)
+		}
+	}
+	l.Comment("probeConfig.concurrency = min(c.Concurrency, len(clients)) after `if c.Concurrency <= 0 { c.Concurrency = defaultProbeConcurrency }`")
+	l.Raw("/-- workers of a probe loop: unbuffered job channel; `pc.concurrency` goroutines `for job := range jobCh { job.Run(ctx) }`;\n    the dispatcher sends the jobs in configuration order and then waits for all of them -/\ndef dispatchProgram : List String := " +
+		gen.LeanStrList([]string{"jobCh := make(chan job) -- unbuffered", "spawn pc.concurrency workers: for job := range jobCh { job.Run(ctx) }", "on tick: wg.Add(n)", "for i, client := range clients { jobCh <- job(i) }", "wg.Wait()", "probeCount++", "scan", "publish"}) + "\n")
 	return nil
 }
 
@@ -312,6 +440,13 @@ type loopSpec struct {
 func bestLoop(p *gen.Pkg, l *gen.Lean, sp loopSpec) error {
 	fd, err := p.Func("*atomicClientSelector[C]", sp.fn)
 	if err != nil {
+		return err
+	}
+	jobType := "latencyProbeJob"
+	if sp.lean == "avail" {
+		jobType = "availabilityProbeJob"
+	}
+	if err := workerPool(p, sp.fn, fd, jobType); err != nil {
 		return err
 	}
 	// find the ticker case body: for { select { case <-done: return; case <-ticker.C: BODY } }
